@@ -55,6 +55,7 @@ def point(pubkey_: bytes) -> typing.Tuple[int]:
     """
     assert len(pubkey_) == 33 or len(pubkey_) == 65, "invalid pubkey length"
     version = pubkey_[0]
+    assert len(pubkey_) == (65 if version == 4 else 33), "invalid pubkey length"
     payload = pubkey_[1:]
     x = int.from_bytes(payload[:32], "big")
     if version == 2:
